@@ -113,7 +113,9 @@ def targets():
     from . import c05
     # shared with C05: what every analysis reads (the unmasked view) is a function of the data set's current mask -- the getters
     # select by the mask as it is now and keep no subsets from earlier calls
-    shared = [t for t in c05.targets() if "get_frequencies" in t[0] or "set_mask" in t[0] or "observers" in t[0]]
+    # ... and on how the constructor maps the caller's mask onto the points (ascending input is reversed, the mask with it): which
+    # points are "masked" when an analysis runs is decided there
+    shared = [t for t in c05.targets() if "get_frequencies" in t[0] or "set_mask" in t[0] or "observers" in t[0] or "DataSet.__init__" in t[0]]
     results = purity.target_observers(["data/data_set", "analysis/drt/result", "analysis/kramers_kronig/result", "analysis/zhit/__init__", "analysis/fitting",
                                        "analysis/drt/tr_nnls", "analysis/drt/tr_rbf", "analysis/drt/bht", "analysis/drt/lm", "analysis/drt/mrq_fit"], "data set and result observers keep no state")
     from . import frames
